@@ -740,7 +740,18 @@ class Describer:
                 params = [a.arg for a in fn.args.args]
                 # predicate functions: canonical disjunctive normal form over their return paths (insensitive to
                 # guard clauses / merged conditions / temporaries)
-                if params and not fn.args.defaults:
+                def boolish(e):
+                    if isinstance(e, (ast.Compare, ast.BoolOp)) or (isinstance(e, ast.UnaryOp) and isinstance(e.op, ast.Not)):
+                        return True
+                    if isinstance(e, ast.Constant) and isinstance(e.value, bool):
+                        return True
+                    if isinstance(e, ast.Name):
+                        ds = [a.value for a in ast.walk(fn) if isinstance(a, ast.Assign) and any(isinstance(t, ast.Name) and t.id == e.id for t in a.targets)]
+                        return bool(ds) and all(boolish(d) for d in ds)
+                    return False
+
+                rets = [x.value for x in ast.walk(fn) if isinstance(x, ast.Return) and x.value is not None]
+                if params and not fn.args.defaults and rets and all(boolish(x) for x in rets):
                     try:
                         from ..rules.sem import dnf_of_paths, dnf_text
                         d = dnf_of_paths(self.ctx, fn, this_names=(params[0],))
